@@ -1011,10 +1011,13 @@ class HyperbandScheduler(
         # Check whether searcher was already updated based on ``result``
         trial_id = str(trial.trial_id)
         largest_update_resource = self._active_trials[trial_id].largest_update_resource
-        if largest_update_resource is not None:
-            resource = int(result[self._resource_attr])
-            if resource > largest_update_resource:
-                super().on_trial_complete(trial, result)
+        resource = int(result[self._resource_attr])
+        # If the searcher was never updated for this trial (it completed before
+        # reaching its first rung level), the final result must be passed as
+        # well. Otherwise, the searcher forgets about the configuration and may
+        # suggest it again
+        if largest_update_resource is None or resource > largest_update_resource:
+            super().on_trial_complete(trial, result)
         # Remove pending evaluations, in case there are still some
         self.searcher.cleanup_pending(trial_id)
         self._cleanup_trial(trial_id, trial_decision=SchedulerDecision.STOP)
